@@ -36,3 +36,20 @@ Theorem C19_ends : forall c fuel st fs tl,
   (length fs < fuel)%nat -> exists pre, loop fuel c st fs tl = pre ++ [Closed].
 Proof. exact loop_ends. Qed.
 Print Assumptions C19_ends.
+
+(* ---------- the whole connection against the executable oracle ---------- *)
+Require Import Wire.RobustFacts Wire.Case Spec.Oracles Spec.OracleFacts Spec.OracleFactsLife.
+
+(* For every case the harness can script (any authentication strategy and outcome, any
+   list of middleware outcomes, terminate hook present or not, any parser table and
+   handler programs, any byte stream): the log of the model passes [oracle_C19] — the
+   middlewares run in registration order, each at most once, after AuthenticationOk and
+   the parameter block and before the first ReadyForQuery or command; the first failing
+   one is the last to run and ends the connection before anything is served; the
+   terminate hook runs at most once and only a Closed follows it; it never runs when
+   none is configured. *)
+Theorem C19_model_satisfies_oracle : forall sc,
+  (forall v after rest, start (cfg_of_case sc) (sc_raw sc) = Some (v, after, rest) -> v <> version_ssl) ->
+  oracle_C19 sc (run_case sc) = true.
+Proof. exact oracle_C19_model. Qed.
+Print Assumptions C19_model_satisfies_oracle.
